@@ -37,9 +37,9 @@ for p in props:
         na.append({"property_id": pid, "reason": NOT_BUILT.get(pid, "check not built yet (work in progress); not claimed")})
 man = {
     "version": 1,
-    "setup_cmd": "/venv/bin/python -c 'import hypothesis, numpy, scipy, h5py' || /venv/bin/pip install --no-index --find-links /opt/veriftools/wheels hypothesis",
+    "setup_cmd": "(/venv/bin/python -c 'import hypothesis, numpy, scipy, h5py' || /venv/bin/pip install --no-index --find-links /opt/veriftools/wheels hypothesis) && (test -d /verif/.deps/atheris || /venv/bin/pip install -q --no-index --find-links /opt/veriftools/wheels --target /verif/.deps atheris || echo 'atheris not installed: thorough-tier coverage-guided campaigns will be skipped')",
     "hooks": {"guard": "BIOM_FORMAT_VERIF", "enable": "none needed: every observation point is public API, a written file or CLI output; checks import biom from /repo's working tree", "baseline_off_cmd": "cd /repo && /venv/bin/python -m pytest -ra -q -p no:cacheprovider --timeout=900 --continue-on-collection-errors", "source_commits": [], "add_only": True},
-    "engines": [{"name": "vf", "path": "/verif/vf", "serves_properties": sorted(CHECKS), "kind_free_text": "Hypothesis 6.168 property-based testing (sharded, seeded via VERIF_SEED), exhaustive enumeration of small finite sub-domains, pinned regression cases; cases are plain JSON and double as replay files"}],
+    "engines": [{"name": "vf", "path": "/verif/vf", "serves_properties": sorted(CHECKS), "kind_free_text": "Hypothesis 6.168 property-based testing (sharded, seeded via VERIF_SEED), exhaustive enumeration of small finite sub-domains, pinned regression cases, and (thorough tier, C03/C14/C15/C17/C18) atheris 3.1 coverage-guided campaigns driving the same properties through fuzz_one_input; cases are plain JSON and double as replay files"}],
     "checks": checks,
     "not_applicable": na,
     "notes": "See DESIGN.md. Known genuine defects are listed in KNOWN_FINDINGS.txt (known:/fixed: lines).",
